@@ -155,25 +155,42 @@ def run_unit(unit, tier):
             # giving up, take a model of the path condition and run the same harness concretely on the real code:
             # an assertion failing there is a reproduced violation; otherwise the path stays inconclusive.
             entry = {"unit": unit.name, "label": "abort:%s" % p.exc.why, "kind": "abort", "path": p.index}
+            found = False
             if "abort-fallback" not in exc_seen:
                 exc_seen.add("abort-fallback")
                 try:
-                    vals = path_model(unit, p, ex)
-                    with contextlib.redirect_stdout(io.StringIO()):
-                        cc, st_, exc_ = sym.run_concrete(unit.fn, vals, unit.tol)
-                    if cc.failed:
-                        res["violations"].append({"unit": unit.name, "label": cc.failed[0], "kind": "assertion", "path": p.index,
-                                                  "values": vals, "replay": {"reproduced": True, "how": "symbolic path aborted (%s); concrete re-execution of the same harness on the real code fails the assertion" % p.exc.why,
-                                                                             "info": {"failed": cc.failed[:10], "status": st_}}})
-                        continue
-                    if st_ == "exception":
-                        res["violations"].append({"unit": unit.name, "label": "exception:%s" % type(exc_).__name__, "kind": "exception", "path": p.index,
-                                                  "values": vals, "msg": str(exc_)[:300],
-                                                  "replay": {"reproduced": True, "how": "symbolic path aborted (%s); the real code raises on the concrete input" % p.exc.why,
-                                                             "info": {"exc": repr(exc_)[:300]}}})
-                        continue
+                    for vals in path_models(unit, p, ex):
+                        if unit.replay is not None:
+                            # the unit's own replay knows how to re-position tolerances etc.; "*" = any assertion
+                            with contextlib.redirect_stdout(io.StringIO()):
+                                ok_, info_ = unit.replay(vals, "*")
+                            if ok_:
+                                lab = (info_.get("failed") or ["assertion"])[0] if isinstance(info_, dict) else "assertion"
+                                res["violations"].append({"unit": unit.name, "label": lab, "kind": "assertion", "path": p.index, "values": vals,
+                                                          "replay": {"reproduced": True, "how": "symbolic path aborted (%s); the unit's replay on the real code fails the assertion" % p.exc.why,
+                                                                     "info": info_}})
+                                found = True
+                                break
+                            continue
+                        with contextlib.redirect_stdout(io.StringIO()):
+                            cc, st_, exc_ = sym.run_concrete(unit.fn, vals, unit.tol)
+                        if cc.failed:
+                            res["violations"].append({"unit": unit.name, "label": cc.failed[0], "kind": "assertion", "path": p.index, "values": vals,
+                                                      "replay": {"reproduced": True, "how": "symbolic path aborted (%s); concrete re-execution of the same harness on the real code fails the assertion" % p.exc.why,
+                                                                 "info": {"failed": cc.failed[:10], "status": st_}}})
+                            found = True
+                            break
+                        if st_ == "exception":
+                            res["violations"].append({"unit": unit.name, "label": "exception:%s" % type(exc_).__name__, "kind": "exception", "path": p.index,
+                                                      "values": vals, "msg": str(exc_)[:300],
+                                                      "replay": {"reproduced": True, "how": "symbolic path aborted (%s); the real code raises on the concrete input" % p.exc.why,
+                                                                 "info": {"exc": repr(exc_)[:300]}}})
+                            found = True
+                            break
                 except BaseException:
                     pass
+            if found:
+                continue
             res["inconclusive"].append(entry)
     if s["budget_exhausted"]:
         res["inconclusive"].append({"unit": unit.name, "label": "path/time budget exhausted", "kind": "budget"})
@@ -251,7 +268,20 @@ def run_unit(unit, tier):
     return res
 
 
-def path_model(unit, p, ex, diverse=True):
+def path_models(unit, p, ex):
+    """several satisfying assignments of one path condition for the abort->concrete fallback: a non-degenerate one,
+    and one biased towards NEGATIVE inputs (domain errors such as log/sqrt of a negative number hide there)"""
+    out = []
+    v0 = path_model(unit, p, ex)
+    if v0:
+        out.append(v0)
+    v1 = path_model(unit, p, ex, bias="negative")
+    if v1 and v1 != v0:
+        out.append(v1)
+    return out
+
+
+def path_model(unit, p, ex, diverse=True, bias=None):
     """re-run the path to recover its pc and ask for a model"""
     holder = {}
 
@@ -272,6 +302,20 @@ def path_model(unit, p, ex, diverse=True):
     # prefer a NON-DEGENERATE assignment (pairwise distinct, non-zero, non-unit values): an all-zero model would
     # make permutations, dropped terms and in-place modifications invisible to a concrete run
     v = None
+    if bias == "negative":
+        sv = sym._mk_solver(3000)
+        sv.add(*c.pc)
+        kept = []
+        for z in c.symbols.values():
+            if z.sort() == z3.BoolSort():
+                continue
+            lit = sym._real(z) < 0
+            if sym.zcheck(sv, *(kept + [lit]), ms=1000) == z3.sat:
+                kept.append(lit)
+        vb = sym.solve(c.pc + kept, timeout_ms=3000)
+        if vb.status == "sat":
+            return {k: _jsonable(val) for k, val in c._model_vals(vb.model, None).items()}
+        return {}
     if diverse:
         nums = [z for z in c.symbols.values() if z.sort() != z3.BoolSort()]
         reals = [sym._real(z) for z in nums]
